@@ -430,106 +430,180 @@ def callback_side_cases(c, S, info, R, rb):
     return n
 
 
+def forked_big(fn, arg):
+    """fn(arg) in a forked child -> (status, result): 'ok', 'crash' (the C library took the child down) or 'exception'
+    (a bug of the check itself, traceback on stderr)"""
+    rfd, wfd = os.pipe()
+    pid = os.fork()
+    if pid == 0:
+        rcode = 3
+        try:
+            os.close(rfd)
+            data = json.dumps(fn(arg)).encode()
+            with os.fdopen(wfd, "wb") as f:
+                f.write(data)
+            rcode = 0
+        except BaseException:
+            import traceback
+            traceback.print_exc()
+        finally:
+            os._exit(rcode)
+    os.close(wfd)
+    chunks = []
+    while True:
+        ch = os.read(rfd, 1 << 20)
+        if not ch:
+            break
+        chunks.append(ch)
+    os.close(rfd)
+    _, status = os.waitpid(pid, 0)
+    if status == 0 and chunks:
+        return "ok", json.loads(b"".join(chunks).decode())
+    if os.WIFEXITED(status) and os.WEXITSTATUS(status) == 3:
+        return "exception", None
+    return "crash", None
+
+
 def correspondence(c, exe, rb, info, R, cfgs, rng):
     """model `compare` vs real reb_binary_diff on pairs of real streams"""
-    lines, meta = [], []
-    sims = []
-    for cfg in cfgs:
+    prog = os.path.join(os.environ.get("VERIF_TMP", "/tmp"), "c17_corr_%d" % os.getpid())
+
+    def gather(skip):
+        """runs in a forked child: every call into the compiled library happens here, so that a crash of the real code
+        (or of freeing a simulation) can never take the check itself down"""
+        lines, meta = [], []
+        sims = []
+        for cfg in cfgs:
+            if cfg in skip:
+                continue
+            json.dump(cfg, open(prog, "w"), default=str)
+            try:
+                a = build_sim(rb, cfg); advance(a, cfg["save_after"]); R.save(a)
+                if uses_tree(cfg) and not forked(lambda _: bool(R.copy(a)), None)[0]:
+                    continue     # C05-N5: copying this state crashes (reported by the search)
+                sims.append((cfg, a))
+            except Exception:
+                pass
+        def pair(tag, b1, b2, cfg):
+            f1, f2 = parse_stream(b1)[1], parse_stream(b2)[1]
+            lines.append("CMP %s | %s" % (fields_line(f1), fields_line(f2)))
+            meta.append((tag, cfg, R.binary_diff(b1, b2)))
+            # the report itself (output_option 0): model diffReport vs the difference stream the library writes
+            rc0, rep = R.binary_diff_report(b1, b2)
+            lines.append("DIFF %s | %s" % (fields_line(f1), fields_line(f2)))
+            meta.append(("DIFF:" + tag, cfg, (rc0, rep)))
+
+        def edited(b, fn_):
+            hdr, fs, tail = parse_stream(b)
+            return frame(hdr, fn_([(t, bytearray(p)) for t, p in fs]), tail)
+
+        def stream_edits(b, cfg):
+            """second streams made from a real one at byte level (reb_binary_diff is a function of the two buffers): the LAST
+            element of every member-wise compared array changed in a compared member / in a pointer member only, a walltime
+            field changed, a field removed, fields in another order"""
+            ids = {r["name"]: r["id"] for r in info["rows"]}
+            for name, ename in (("particles", "reb_particle"), ("var_config", "reb_variational_configuration")):
+                el = info["elems"][ename]
+                for kind in ("value", "pointer"):
+                    ms = [m for m in el["members"] if (m["kind"] in ("ptr", "fptr")) == (kind == "pointer")]
+                    if not ms:
+                        continue
+                    m = ms[rng.next() % len(ms)]
+
+                    def ed(fs, m=m, name=name, el=el):
+                        for t, p in fs:
+                            if t == ids[name] and len(p) >= el["size"]:
+                                p[len(p) - el["size"] + m["off"] + (rng.next() % m["size"])] ^= 0x10
+                        return [(t, bytes(p)) for t, p in fs]
+                    if any(t == ids[name] and len(p) >= el["size"] for t, p in parse_stream(b)[1]):
+                        pair("last-element-%s:%s" % (kind, name), b, edited(b, ed), cfg)
+            wall = [r["id"] for r in info["rows"] if r["name"].startswith(info["wallprefix"])]
+
+            def edw(fs):
+                for t, p in fs:
+                    if t in wall and p:
+                        p[0] ^= 1
+                return [(t, bytes(p)) for t, p in fs]
+            pair("walltime-only", b, edited(b, edw), cfg)
+            drop = ids["particles"] if rng.chance(0.5) else ids["dt"]
+            pair("field-removed", b, edited(b, lambda fs: [(t, bytes(p)) for t, p in fs if t != drop]), cfg)
+            pair("field-added", edited(b, lambda fs: [(t, bytes(p)) for t, p in fs if t != drop]), b, cfg)
+            pair("reordered", b, edited(b, lambda fs: [(t, bytes(p)) for t, p in (fs[:-1][::-1] + fs[-1:])]), cfg)
+        for i, (cfg, a) in enumerate(sims):
+            json.dump(cfg, open(prog, "w"), default=str)
+            b = R.save(a)
+            cp, _ = R.copy(a)
+            pair("copy", b, R.save(cp), cfg)
+            # perturb a random persisted scalar of the copy
+            rows = [r for r in info["rows"] if r.get("path") and r["dtype"] in ("REB_DOUBLE", "REB_INT", "REB_UINT", "REB_UINT32", "REB_INT64", "REB_UINT64")
+                    and r["path"] not in ("N", "simulationarchive_version")]
+            r_ = rows[rng.next() % len(rows)]
+            # (in the saved stream of the copy, not in the live struct: a perturbed counter makes freeing the copy crash)
+            def edp(fs, rid=r_["id"]):
+                for t, p in fs:
+                    if t == rid and p:
+                        p[0] ^= 0x04
+                return [(t, bytes(p)) for t, p in fs]
+            pair("perturbed:" + r_["name"], b, edited(R.save(cp), edp), cfg)
+            # particle member / pointer perturbation
+            if cp.N > 1:
+                cp2, _ = R.copy(a)
+                which = rng.next() % 4
+                if which == 0:
+                    cp2.particles[1].x += 1e-9
+                elif which == 1:
+                    cp2.particles[cp2.N - 1].hash = 12345
+                elif which == 2:
+                    cp2.particles[0].vy = float("nan")
+                else:
+                    cp2.particles[1].m = -0.0 if cp2.particles[1].m == 0.0 else cp2.particles[1].m
+                pair("particle:%d" % which, b, R.save(cp2), cfg)
+            # a different simulation (different field sets, orders)
+            cfg2, a2 = sims[(i * 7 + 3) % len(sims)]
+            pair("other", b, R.save(a2), cfg)
+            pair("other-rev", R.save(a2), b, cfg)
+            # a field present in one stream only (display settings), both directions
+            if i % 5 == 0:
+                cp4, _ = R.copy(a)
+                rb.clibrebound.reb_simulation_add_display_settings(ctypes.byref(cp4))
+                pair("extra-field", b, R.save(cp4), cfg)
+                pair("missing-field", R.save(cp4), b, cfg)
+            if i % 3 == 0 or cfg.get("variational") or cfg.get("megno"):
+                stream_edits(b, cfg)
+            # stepped
+            cp3, _ = R.copy(a)
+            try:
+                advance(cp3, 1)
+                pair("stepped", b, R.save(cp3), cfg)
+            except Exception:
+                pass
+        return {"lines": lines, "meta": [[t_, c_, (r_ if not isinstance(r_, tuple) else [r_[0], fields_line(r_[1])])] for t_, c_, r_ in meta]}
+
+    skip, got = [], None
+    for attempt in range(4):
+        st_, got = forked_big(gather, skip)
+        if st_ == "ok":
+            break
+        if st_ == "exception":
+            c.corr_break("the check's correspondence worker raised a Python exception (see stderr)")
+            return
         try:
-            a = build_sim(rb, cfg); advance(a, cfg["save_after"]); R.save(a)
-            if uses_tree(cfg) and not forked(lambda _: bool(R.copy(a)), None)[0]:
-                continue     # C05-N5: copying this state crashes (reported by the search)
-            sims.append((cfg, a))
+            bad = json.load(open(prog))
         except Exception:
-            pass
-    def pair(tag, b1, b2, cfg):
-        f1, f2 = parse_stream(b1)[1], parse_stream(b2)[1]
-        lines.append("CMP %s | %s" % (fields_line(f1), fields_line(f2)))
-        meta.append((tag, cfg, R.binary_diff(b1, b2)))
-        # the report itself (output_option 0): model diffReport vs the difference stream the library writes
-        rc0, rep = R.binary_diff_report(b1, b2)
-        lines.append("DIFF %s | %s" % (fields_line(f1), fields_line(f2)))
-        meta.append(("DIFF:" + tag, cfg, (rc0, rep)))
-
-    def edited(b, fn_):
-        hdr, fs, tail = parse_stream(b)
-        return frame(hdr, fn_([(t, bytearray(p)) for t, p in fs]), tail)
-
-    def stream_edits(b, cfg):
-        """second streams made from a real one at byte level (reb_binary_diff is a function of the two buffers): the LAST
-        element of every member-wise compared array changed in a compared member / in a pointer member only, a walltime
-        field changed, a field removed, fields in another order"""
-        ids = {r["name"]: r["id"] for r in info["rows"]}
-        for name, ename in (("particles", "reb_particle"), ("var_config", "reb_variational_configuration")):
-            el = info["elems"][ename]
-            for kind in ("value", "pointer"):
-                ms = [m for m in el["members"] if (m["kind"] in ("ptr", "fptr")) == (kind == "pointer")]
-                if not ms:
-                    continue
-                m = ms[rng.next() % len(ms)]
-
-                def ed(fs, m=m, name=name, el=el):
-                    for t, p in fs:
-                        if t == ids[name] and len(p) >= el["size"]:
-                            p[len(p) - el["size"] + m["off"] + (rng.next() % m["size"])] ^= 0x10
-                    return [(t, bytes(p)) for t, p in fs]
-                if any(t == ids[name] and len(p) >= el["size"] for t, p in parse_stream(b)[1]):
-                    pair("last-element-%s:%s" % (kind, name), b, edited(b, ed), cfg)
-        wall = [r["id"] for r in info["rows"] if r["name"].startswith(info["wallprefix"])]
-
-        def edw(fs):
-            for t, p in fs:
-                if t in wall and p:
-                    p[0] ^= 1
-            return [(t, bytes(p)) for t, p in fs]
-        pair("walltime-only", b, edited(b, edw), cfg)
-        drop = ids["particles"] if rng.chance(0.5) else ids["dt"]
-        pair("field-removed", b, edited(b, lambda fs: [(t, bytes(p)) for t, p in fs if t != drop]), cfg)
-        pair("field-added", edited(b, lambda fs: [(t, bytes(p)) for t, p in fs if t != drop]), b, cfg)
-        pair("reordered", b, edited(b, lambda fs: [(t, bytes(p)) for t, p in (fs[:-1][::-1] + fs[-1:])]), cfg)
-    for i, (cfg, a) in enumerate(sims):
-        b = R.save(a)
-        cp, _ = R.copy(a)
-        pair("copy", b, R.save(cp), cfg)
-        # perturb a random persisted scalar of the copy
-        rows = [r for r in info["rows"] if r.get("path") and r["dtype"] in ("REB_DOUBLE", "REB_INT", "REB_UINT", "REB_UINT32", "REB_INT64", "REB_UINT64")
-                and r["path"] not in ("N", "simulationarchive_version")]
-        r_ = rows[rng.next() % len(rows)]
-        addr = ctypes.addressof(cp) + info["by_path"][r_["path"]]["off"]
-        ctypes.memmove(addr, bytes([ctypes.string_at(addr, 1)[0] ^ 0x04]), 1)
-        pair("perturbed:" + r_["name"], b, R.save(cp), cfg)
-        # particle member / pointer perturbation
-        if cp.N > 1:
-            cp2, _ = R.copy(a)
-            which = rng.next() % 4
-            if which == 0:
-                cp2.particles[1].x += 1e-9
-            elif which == 1:
-                cp2.particles[cp2.N - 1].hash = 12345
-            elif which == 2:
-                cp2.particles[0].vy = float("nan")
-            else:
-                cp2.particles[1].m = -0.0 if cp2.particles[1].m == 0.0 else cp2.particles[1].m
-            pair("particle:%d" % which, b, R.save(cp2), cfg)
-        # a different simulation (different field sets, orders)
-        cfg2, a2 = sims[(i * 7 + 3) % len(sims)]
-        pair("other", b, R.save(a2), cfg)
-        pair("other-rev", R.save(a2), b, cfg)
-        # a field present in one stream only (display settings), both directions
-        if i % 5 == 0:
-            cp4, _ = R.copy(a)
-            rb.clibrebound.reb_simulation_add_display_settings(ctypes.byref(cp4))
-            pair("extra-field", b, R.save(cp4), cfg)
-            pair("missing-field", R.save(cp4), b, cfg)
-        if i % 3 == 0 or cfg.get("variational") or cfg.get("megno"):
-            stream_edits(b, cfg)
-        # stepped
-        cp3, _ = R.copy(a)
-        try:
-            advance(cp3, 1)
-            pair("stepped", b, R.save(cp3), cfg)
-        except Exception:
-            pass
+            bad = None
+        if bad is None or bad in skip:
+            break
+        c.violation("crash:correspondence:" + bad.get("integrator", "?"), "building / copying / saving / freeing a reachable simulation crashes the process, cfg %s" % cfg_key(bad), {"cfg": bad})
+        skip.append(bad)
+    try:
+        os.remove(prog)
+    except OSError:
+        pass
+    if not got:
+        c.corr_break("the correspondence could not be gathered (child process died repeatedly)")
+        return
+    lines = got["lines"]
+    meta = [(t_, c_, (r_ if not isinstance(r_, list) else (r_[0], parse_fields_line(r_[1].split())))) for t_, c_, r_ in got["meta"]]
     out = run_driver(exe, lines)
     if len(out) != len(lines):
         c.corr_break("driver returned %d lines for %d ops" % (len(out), len(lines)))
